@@ -82,7 +82,7 @@ func uvar(v uint64) []byte { return binary.AppendUvarint(nil, v) }
 
 // C06 — hostile or corrupted input yields an error, never a crash or bad column.
 func C06(c *vk.Ctx) {
-	c.Rule("corpus = one valid block per registry composition (rows built from the boundary alphabet; for LowCardinality compositions also the same block as a server may write it, with 16- and 64-bit keys) at revision 54460 and the C17 messages; mutations: (a) every byte offset x {8 bit flips, 00, FF}; (b) at every byte offset an 8-byte little-endian field overwritten with each of {0, 1, 127, 128, 255, 256, 65535, 65536, 2^31-1, 2^31, 2^32-1, 2^32, 2^40, 2^62, 2^63-256, 2^63-16, 2^63-8, 2^63-4, 2^63-3, 2^63-2, 2^63-1, 2^63, 2^63+1, 2^64-2, 2^64-1} (offsets, dictionary sizes, key counts, LowCardinality meta) and the byte replaced by the varint encoding of the same values (row / column counts, string lengths); (c) splices: prefix of one block + suffix of another block of the same column at every offset; (d) well-formed blocks of another shape than the one-column target (two columns with rows and as zero-row headers, in both orders; no columns at all, with and without a row count). Each mutant is decoded through the typed target and through Auto in a worker with a 3 GiB address-space limit and the block row cap lowered to 65536; oracle: returns (watchdog 30 s), no panic, process survives, and on success every column reports the block's row count and Row(i) works for all i. distinct_nontrivial = mutants evaluated (each is a distinct byte string by construction).")
+	c.Rule("corpus = one valid block per registry composition (rows built from the boundary alphabet; for LowCardinality compositions also the same block as a server may write it, with 16- and 64-bit keys) at revision 54460 and the C17 messages; mutations: (a) every byte offset x {8 bit flips, 00, FF}; (b) at every byte offset an 8-byte little-endian field overwritten with each of {0, 1, 127, 128, 255, 256, 65535, 65536, 2^31-1, 2^31, 2^32-1, 2^32, 2^40, 2^62, 2^63-256, 2^63-16, 2^63-8, 2^63-4, 2^63-3, 2^63-2, 2^63-1, 2^63, 2^63+1, 2^64-2, 2^64-1} (offsets, dictionary sizes, key counts, LowCardinality meta) and the byte replaced by the varint encoding of the same values (row / column counts, string lengths); (c) splices: prefix of one block + suffix of another block of the same column at every offset; (d) well-formed blocks of another shape than the one-column target (two columns with rows and as zero-row headers, in both orders; no columns at all, with and without a row count); (e) block headers whose column type is a parameterised family with ANY character string of length <= 4 over {' a = 1 , space - ( )} as parameter list, with 0 rows and with 1 claimed row, through Auto and into an inferring enum target. Each mutant is decoded through the typed target and through Auto in a worker with a 3 GiB address-space limit and the block row cap lowered to 65536; oracle: returns (watchdog 30 s), no panic, process survives, and on success every column reports the block's row count and Row(i) works for all i. distinct_nontrivial = mutants evaluated (each is a distinct byte string by construction).")
 	c.Watchdog(30*time.Second, "C06/does-not-terminate")
 	rev := 54460
 	quick := c.Quick()
@@ -127,8 +127,8 @@ func C06(c *vk.Ctx) {
 	}
 	sel := int64(0)
 	for ei, e := range regEntries(c) {
-		if quick && e.Depth == 2 && ei%7 != 0 {
-			continue // quick: every seventh composition of depth 2
+		if quick && e.Depth == 2 && ei%11 != 0 {
+			continue // quick: every eleventh composition of depth 2
 		}
 		sel++
 		if c.Only == "" && !c.Mine(sel) {
@@ -245,6 +245,71 @@ func C06(c *vk.Ctx) {
 				}
 			}
 		}
+	}
+	// (e) hostile type strings in the block header: ALL character strings of length <= 4 over
+	// {' a = 1 , space - ( )} as the parameter list of every parameterised family, in a header
+	// block (0 rows) and in a block claiming one row of 16 zero bytes; through Auto and into an
+	// inferring enum target
+	{
+		chars := []byte("'a=1, -()")
+		fams := []string{"Enum8", "Enum16", "DateTime", "DateTime64", "Decimal", "FixedString", "Map", "Tuple", "Array", "Nullable", "LowCardinality", "Nested"}
+		var n int64
+		var rec func(pre []byte)
+		rec = func(pre []byte) {
+			mine := c.Only == "" && c.Mine(n)
+			n++
+			for _, f := range fams {
+				ts := f + "(" + string(pre) + ")"
+				for _, rows := range []int{0, 1} {
+					id := fmt.Sprintf("header-type/%s/rows=%d", ts, rows)
+					if !(mine || c.Only == id) || c.Resuming(id) {
+						continue
+					}
+					var w refwire.W
+					w.UVarint(1) // block info: field 1 (overflows)
+					w.Byte(0)
+					w.UVarint(2)
+					w.I32(-1)
+					w.UVarint(0)
+					w.UVarint(1)            // columns
+					w.UVarint(uint64(rows)) // rows
+					w.Str("col")
+					w.Str(ts)
+					w.Byte(0) // no custom serialization
+					if rows > 0 {
+						w.Raw(make([]byte, 16))
+					}
+					c.Current(id)
+					c.Checkpoint()
+					for _, auto := range []bool{false, true} {
+						msg, fn := vk.Recover(func() {
+							var blk proto.Block
+							if auto {
+								var res proto.Results
+								_ = blk.DecodeBlock(proto.NewReader(bytes.NewReader(w.B)), rev, res.Auto())
+							} else {
+								_ = blk.DecodeBlock(proto.NewReader(bytes.NewReader(w.B)), rev, proto.Results{{Name: "col", Data: new(proto.ColEnum)}})
+							}
+						})
+						if msg != "" {
+							if len(msg) > 300 {
+								msg = msg[:300]
+							}
+							c.Violation("C06/panic/"+fn+"/header-type", id, fmt.Sprintf("block header with column type %q panics: %s", ts, msg), nil)
+						}
+					}
+					c.Eval("hostile header types", 2)
+					c.DistinctN(2)
+				}
+			}
+			if len(pre) == 4 {
+				return
+			}
+			for _, ch := range chars {
+				rec(append(pre, ch))
+			}
+		}
+		rec(nil)
 	}
 	// protocol messages: every single-byte mutation and huge varints must not panic
 	for mi, m := range c17Messages() {
